@@ -2351,6 +2351,96 @@ def run_corpus(ctx, classes, limit=300):
     flush_sequences(ctx, lines, plan)
 
 
+
+# ---- probing the running classes (fallback of the translator) ---------------------------------------------------------
+class _ProbeCtx:
+    """what make_case needs; its own fixed generator, so that the inferred table does not depend on VERIF_SEED"""
+    def __init__(self):
+        import random
+        self.rng = random.Random(0xC16)
+
+    def count(self, *a, **k):
+        pass
+
+
+def enum_paths(obj):
+    """{attribute path: members} for the enum-valued scalar attributes of a message object and of its nested objects"""
+    res = {}
+    for k, v in vars(obj).items():
+        if isinstance(v, enum.Enum):
+            res[(k,)] = type(v)
+        elif hasattr(v, '__dict__') and not isinstance(v, (type, np.ndarray)) and not hasattr(v, '__float__'):
+            for k2, v2 in vars(v).items():
+                if isinstance(v2, enum.Enum):
+                    res[(k, k2)] = type(v2)
+    return {p: [m for m in T if not str(m.name).startswith('_U_')] for p, T in res.items()}
+
+
+def probe_cases(cls, owner):
+    """the probe lists of one class: lengths 0, 1, 2, 5 with pairwise distinct values and invalid P1 times at known places; random
+    enum members / booleans; random time sources; for every enum-valued attribute and every member, lists that begin with
+    runs of that member"""
+    from fusion_engine_client.messages.measurement_details import SystemTimeSource
+    pc = _ProbeCtx()
+    rng = pc.rng
+    eps = enum_paths(cls())
+    has_details = 'details' in vars(cls()) or owner == 'MeasurementDetails'
+
+    def shuffle_enums(case):
+        for m in case.msgs:
+            for path, members in eps.items():
+                set_path(m, list(path), rng.choice(members))
+        return case
+    out = []
+    for n in (0, 1, 2, 5, 5, 3):
+        for s in subsets(rng, n, 3):
+            src = [rng.choice(list(SystemTimeSource)) for _ in range(n)] if has_details else None
+            out.append(shuffle_enums(make_case(pc, cls, owner, n, s, 'probe')))
+            if src is not None:
+                c = shuffle_enums(make_case(pc, cls, owner, n, s, 'probe'))
+                for m, x in zip(c.msgs, src):
+                    (m if owner == 'MeasurementDetails' else m.details).measurement_time_source = x
+                out.insert(0, c)
+    for path, members in eps.items():
+        if len(members) < 2:
+            continue
+        for v in members:
+            others = [x for x in members if x != v]
+            w, w2 = others[0], others[-1]
+            for pat in ([v], [v, v], [v, w], [w, v], [v, v, w, v, w2], [w, v, v, w2, w], [v, v, v, v, w2]):
+                c = shuffle_enums(make_case(pc, cls, owner, len(pat), set(), 'probe'))
+                for m, x in zip(c.msgs, pat):
+                    set_path(m, list(path), x)
+                out.append(c)
+    return out, {p: [('%s.%s' % (type(m).__name__, m.name), int(m)) for m in ms] for p, ms in eps.items()}
+
+
+def make_prober(ctx):
+    import importlib
+
+    def prober(ci, why):
+        try:
+            mod = importlib.import_module('fusion_engine_client.messages.' + ci.file[:-3])
+            cls = getattr(mod, ci.name)
+            cls()
+        except Exception as e:     # noqa
+            return None, 'class not constructible: %s' % e
+        cs, enum_members = probe_cases(cls, ci.name)
+        probes = []
+        for c in cs:
+            real, err = run_real(c)
+            if err is not None:
+                return None, 'to_numpy raised on a probe list of %d messages: %s' % (len(c.msgs), err[:80])
+            if not isinstance(real, dict):
+                return None, 'to_numpy does not return a dictionary'
+            probes.append((c.msgs, real))
+        res = nx.infer_table(ci, probes, enum_members)
+        ctx.notes.append('translator: %s.to_numpy not expressible by the AST reader (%s); table %s by probing the running class on %d lists'
+                         % (ci.name, why.split('\n')[0][:120], 'OBTAINED' if res[0] is not None else 'NOT obtained (%s)' % res[1], len(probes)))
+        return res
+    return prober
+
+
 # ---- entry points ---------------------------------------------------------------------------------------------------
 def run(ctx, classes, reps, maxn):
     batch = []
@@ -2365,7 +2455,7 @@ def run(ctx, classes, reps, maxn):
 
 def translate(ctx):
     try:
-        classes, changed = nx.run(fv.REPO, fv.LEAN)
+        classes, changed = nx.run(fv.REPO, fv.LEAN, make_prober(ctx))
     except (ValueError, SyntaxError, OSError) as e:
         ctx.proof_failures.append('translator: %s' % e)
         return None
@@ -2373,7 +2463,14 @@ def translate(ctx):
                              'generated_file_rewritten': changed,
                              'opaque_entries': ['%s.%s: %s' % (c.name, e.key, e.why) for c in classes for e in c.entries
                                                 if isinstance(e, nx.Entry) and e.kind[0] == 'opaque'],
-                             'preludes': {c.name: list(c.prelude) for c in classes if c.prelude[0] != 'none'}}
+                             'preludes': {c.name: list(c.prelude) for c in classes if c.prelude[0] != 'none'},
+                             'helper_functions_read_in_place': {c.name: c.inlined_helpers for c in classes if c.inlined_helpers},
+                             'tables_obtained_by_probing': {
+                                 c.name: {'ast_reader_said': c.probed, 'notes': c.probe_notes,
+                                          'entries': ['%s <- %s (%s)' % (e.key, '.'.join(e.path) or '?', kind_text(e.kind))
+                                                      for e in c.entries if isinstance(e, nx.Entry)]}
+                                 for c in classes if c.probed},
+                             'probing_notes': {c.name: c.probe_notes for c in classes if c.probe_notes and not c.probed}}
     for b in same_name_report(classes):
         ctx.notes.append('same-name check: ' + b)
     return classes
